@@ -1,5 +1,6 @@
 import Infretis.Lemmas.Template
 import Infretis.Lemmas.TemplateSubst
+import Infretis.Lemmas.TemplateNow
 import Infretis.Lemmas.TemplateCp2k
 import Infretis.Lemmas.CodecFixed
 import Infretis.Lemmas.CodecLmp
@@ -7,7 +8,8 @@ import Infretis.Lemmas.CodecLmp
 # C19 — configuration, trajectory and input-template codecs are lossless
 
 Property theorems only.  Models:
-* `Infretis/Model/Template.lean` — `_modify_input`, `_read_input_settings`, `write_for_run`
+* `Infretis/Model/Template.lean` — `_modify_input`, `_read_input_settings`, `write_for_run` (the code after the
+  repairs eaf64e1 / f746fff; the `…AsIs` definitions are the code before them, kept as record)
 * `Infretis/Model/TemplateCp2k.lean` — the CP2K section-tree editor (`update_cp2k_input` and friends)
 * `Infretis/Model/Codec.lean` — decimal fixed point, `.g96` and extended-xyz readers/writers
 * `Infretis/Model/CodecLmp.lean` — `.lammpstrj` (numbers as opaque numpy tokens) and the TRR byte layout
@@ -23,26 +25,41 @@ open Infretis.Template
 
 /-! ## 1. the mdp-style editor `_modify_input`
 
-`modifyInput s t` is the content of the output file for template content `t` and settings `s`.
-The full statements
+`modifyInput s t` is the content of the output file for template content `t` and settings `s`,
+for the code as it is now (after the repair eaf64e1: a newline is written before the first
+appended setting when the last piece written lacks one).  `modifyInputAsIs` is the code before
+the repair, kept as the record of finding C19:mdp:append-after-missing-final-newline
+(`mdp_asIs_…_counterexample`). -/
 
-    mdp_edit_exact      : linesKeep (modifyInput s t) = (linesKeep t).map (editOut s) ++ appended …
-    mdp_edit_idempotent : modifyInput s (modifyInput s t) = modifyInput s t
-
-are FALSE of the code as it is: when the template does not end with a newline and a setting has
-to be appended, the appended `key = value` is glued to the last line (`…_counterexample`).
-They are proved under exactly the guard that excludes this (`EndsNL t`), `…_partial`. -/
-
-/-- **edit_exact (mdp), lines of the output.**  For a template that is empty or ends with a
-    newline the output consists of the template's lines, each passed through `editOut`, followed
-    by one `key = value` line per setting whose key is no keyword of the template. -/
-theorem mdp_edit_exact_partial (s : Settings) (t : Str) (hE : EndsNL t)
+/-- **edit_exact (mdp), full strength.**  For every template (with or without final newline,
+    also empty) the lines of the output are: the template's lines each passed through `editOut`;
+    and, if some setting's key is no keyword of the template, the last of these lines completed
+    with its newline, followed by one `key = value` line per such setting, in dict order.
+    Remaining guards: no newline inside a key or a value (otherwise an edited or appended piece
+    is not one line and the statement about lines is false). -/
+theorem mdp_edit_exact (s : Settings) (t : Str)
     (hk : ∀ kv ∈ s, '\n' ∉ kv.1) (hv : ∀ kv ∈ s, '\n' ∉ kv.2) :
-    linesKeep (modifyInput s t)
-      = (linesKeep t).map (editOut s) ++ appended s (writtenKeys (linesKeep t)) := by
+    linesKeep (modifyInput s t) =
+      match appended s (writtenKeys (linesKeep t)) with
+      | [] => (linesKeep t).map (editOut s)
+      | a :: r => closeLast ((linesKeep t).map (editOut s)) ++ a :: r := by
   unfold modifyInput
-  rw [linesKeep_flatten _ (modifyLines_proper hk hv _ (linesKeep_proper t hE))]
+  rw [modifyLines_flatten s hv _ (linesKeep_lines t),
+      linesKeep_flatten_lines _ (outLines_lines s hk hv _ (linesKeep_lines t))]
   rfl
+
+/-- `closeLast` touches only the last line and only by completing its newline -/
+theorem mdp_closeLast_spec (l : Str) (ls : List Str) :
+    closeLast (ls ++ [l]) = ls ++ [if l.getLast? = some '\n' then l else l ++ ['\n']] := by
+  induction ls with
+  | nil => simp [closeLast, closeNL]
+  | cons a r ih =>
+    cases r with
+    | nil => simp [closeLast, closeNL]
+    | cons b r' =>
+      simp only [List.cons_append] at ih ⊢
+      simp only [closeLast]
+      rw [ih]
 
 /-- keys that were not requested keep their lines (also lines without '=': comments, blanks) -/
 theorem mdp_unrequested_kept (s : Settings) (l : Str)
@@ -67,125 +84,125 @@ theorem mdp_appended_exact (s : Settings) (w : List Str) (l : Str) :
     simp only [appended, List.mem_filterMap]
     exact ⟨(k, v), a, by simp [b, newLine]⟩
 
-example : EndsNL "a = 1\n; c\nb=2 ; x\n".toList ∧
-    modifyInput [("b".toList, "3".toList), ("d".toList, "q".toList)] "a = 1\n; c\nb=2 ; x\n".toList
-      = "a = 1\n; c\nb= 3\nd = q\n".toList := by decide
+example :
+    modifyInput [("b".toList, "3".toList), ("d".toList, "q".toList)] "a = 1\n; c\nb=2 ; x".toList
+      = "a = 1\n; c\nb= 3\nd = q\n".toList ∧
+    modifyInput [("c".toList, "3".toList), ("d".toList, "4".toList)] "a = 1\nb = 2".toList
+      = "a = 1\nb = 2\nc = 3\nd = 4\n".toList ∧
+    modifyInput [("c".toList, "3".toList)] [] = "c = 3\n".toList := by decide
 
-/-- the full `mdp_edit_exact` fails without the final newline: the untouched line `b = 2`
-    is not a line of the output any more (it became `b = 2c = 3`) -/
-theorem mdp_edit_exact_counterexample :
-    ∃ (s : Settings) (t : Str), (∀ kv ∈ s, '\n' ∉ kv.1) ∧ (∀ kv ∈ s, '\n' ∉ kv.2) ∧
-      linesKeep (modifyInput s t)
-        ≠ (linesKeep t).map (editOut s) ++ appended s (writtenKeys (linesKeep t)) :=
-  ⟨[("c".toList, "3".toList)], "a = 1\nb = 2".toList, by decide, by decide, by decide⟩
-
-/-- **edit_idempotent (mdp).**  Applying the same settings to the output changes nothing. -/
-theorem mdp_edit_idempotent_partial (s : Settings) (t : Str) (hE : EndsNL t) (hs : WFSettings s) :
+/-- **edit_idempotent (mdp), full strength in the template**: for EVERY template, applying the
+    same settings to the output changes nothing.  Remaining guards (`WFSettings`): the settings
+    are a dict (distinct keys); keys could be keywords of a line — no '=', no newline, no outer
+    white space (a key violating this is never found again and is appended on every pass);
+    values contain no newline. -/
+theorem mdp_edit_idempotent (s : Settings) (t : Str) (hs : WFSettings s) :
     modifyInput s (modifyInput s t) = modifyInput s t := by
+  have hL := linesKeep_lines t
+  have hO := outLines_lines s hs.key_nonl hs.val_nonl _ hL
   unfold modifyInput
-  rw [linesKeep_flatten _ (modifyLines_proper hs.key_nonl hs.val_nonl _ (linesKeep_proper t hE))]
-  rw [modifyLines_idem hs]
+  rw [modifyLines_flatten s hs.val_nonl _ hL, linesKeep_flatten_lines _ hO,
+      modifyLines_flatten s hs.val_nonl _ hO, outLines_idem hs _ hL]
 
-example : EndsNL "a = 1\nb = 2\n".toList ∧ WFSettings [("c".toList, "3".toList)] :=
-  ⟨by decide, ⟨by decide, by decide, by decide, by decide, by decide⟩⟩
+example : WFSettings [("c".toList, "3".toList)] ∧
+    modifyInput [("c".toList, "3".toList)] (modifyInput [("c".toList, "3".toList)] "a = 1\nb = 2".toList)
+      = "a = 1\nb = 2\nc = 3\n".toList :=
+  ⟨⟨by decide, by decide, by decide, by decide, by decide⟩, by decide⟩
 
-/-- without the final newline the second application appends the setting once more -/
-theorem mdp_edit_idempotent_counterexample :
+/-- the guards on keys are needed: a key with a trailing blank is appended again on every pass -/
+theorem mdp_edit_idempotent_key_guard_counterexample :
+    ∃ (s : Settings) (t : Str), modifyInput s (modifyInput s t) ≠ modifyInput s t :=
+  ⟨[("c ".toList, "3".toList)], "a = 1\n".toList, by decide⟩
+
+/-- RECORD (code before eaf64e1): without the final newline the untouched line `b = 2` was
+    glued to the appended setting (`b = 2c = 3`) -/
+theorem mdp_asIs_edit_exact_counterexample :
+    ∃ (s : Settings) (t : Str), (∀ kv ∈ s, '\n' ∉ kv.1) ∧ (∀ kv ∈ s, '\n' ∉ kv.2) ∧
+      linesKeep (modifyInputAsIs s t)
+        ≠ (linesKeep t).map (editOut s) ++ appended s (writtenKeys (linesKeep t)) ∧
+      modifyInputAsIs s t = "a = 1\nb = 2c = 3\n".toList :=
+  ⟨[("c".toList, "3".toList)], "a = 1\nb = 2".toList, by decide, by decide, by decide, by decide⟩
+
+/-- RECORD (code before eaf64e1): …and a second application appended the setting once more -/
+theorem mdp_asIs_edit_idempotent_counterexample :
     ∃ (s : Settings) (t : Str), WFSettings s ∧
-      modifyInput s (modifyInput s t) ≠ modifyInput s t :=
+      modifyInputAsIs s (modifyInputAsIs s t) ≠ modifyInputAsIs s t :=
   ⟨[("c".toList, "3".toList)], "a = 1\nb = 2".toList,
    ⟨by decide, by decide, by decide, by decide, by decide⟩, by decide⟩
 
 /-! ## 2. LAMMPS `write_for_run`
 
-`writeForRun s t` = (pieces written to the output file, how the call ended).  `occ k L` is the
-number of lines of `L` on which the variable `k` is a white-space separated token. -/
+`writeForRun s t` = (pieces written to the output file, how the call ended), for the code as
+it is now (after the repair f746fff: `not_found.pop(var, None)`).  `writeForRunAsIs` is the code
+before the repair (finding C19:lammps:variable-on-two-lines).  `occ k L` is the number of lines
+of `L` on which the variable `k` is a white-space separated token. -/
 
-/-- **failure modes, exactly.**  The call succeeds iff every variable is a token of exactly one
-    line; it raises KeyError (`not_found.pop` on an already removed key) iff some variable is a
-    token of two or more lines; otherwise (some variable on no line) it raises the ValueError. -/
-theorem lammps_outcome (s : Settings) (t : Str) (hnd : (keys s).Nodup) :
-    ((writeForRun s t).err = none ↔ ∀ k ∈ keys s, occ k (linesKeep t) = 1) ∧
-    ((writeForRun s t).err = some .key ↔ ∃ k ∈ keys s, occ k (linesKeep t) ≥ 2) ∧
-    ((writeForRun s t).err = some .value ↔
-        (∀ k ∈ keys s, occ k (linesKeep t) ≤ 1) ∧ ∃ k ∈ keys s, occ k (linesKeep t) = 0) := by
-  obtain ⟨h1, h2, -, -⟩ := wfrLines_spec s hnd (linesKeep t) (keys s) [] hnd (fun _ h => h)
-  have q : ∀ k ∈ keys s, quota (keys s) k = 1 := fun k hk => by simp [quota, hk]
-  have a : (writeForRun s t).err = none ↔ ∀ k ∈ keys s, occ k (linesKeep t) = 1 := by
-    unfold writeForRun; rw [h1]
-    exact ⟨fun h k hk => by rw [h k hk, q k hk], fun h k hk => by rw [h k hk, q k hk]⟩
-  have b : (writeForRun s t).err = some .key ↔ ∃ k ∈ keys s, occ k (linesKeep t) ≥ 2 := by
-    unfold writeForRun; rw [h2]
-    exact ⟨fun ⟨k, hk, h⟩ => ⟨k, hk, by rw [q k hk] at h; omega⟩,
-           fun ⟨k, hk, h⟩ => ⟨k, hk, by rw [q k hk]; omega⟩⟩
-  refine ⟨a, b, ?_⟩
-  constructor
-  · intro h
-    have na : ¬ ∀ k ∈ keys s, occ k (linesKeep t) = 1 := fun h' => by
-      rw [a.2 h'] at h; cases h
-    have nb : ¬ ∃ k ∈ keys s, occ k (linesKeep t) ≥ 2 := fun h' => by
-      rw [b.2 h'] at h; cases h
-    have hle : ∀ k ∈ keys s, occ k (linesKeep t) ≤ 1 := fun k hk =>
-      Nat.le_of_not_lt (fun hlt => nb ⟨k, hk, hlt⟩)
-    refine ⟨hle, ?_⟩
-    exact Classical.byContradiction fun hne => na (fun k hk => by
-      have h1 := hle k hk
-      have h0 : occ k (linesKeep t) ≠ 0 := fun h0 => hne ⟨k, hk, h0⟩
-      omega)
-  · intro ⟨hle, k, hk, h0⟩
-    cases he : (writeForRun s t).err with
-    | none => have := a.1 he k hk; omega
-    | some e =>
-      cases e with
-      | value => rfl
-      | key =>
-        obtain ⟨k', hk', h2⟩ := b.1 he
-        have := hle k' hk'; omega
+/-- **edit_total / edit_exact (LAMMPS), full strength.**  Every template line is written, with
+    every variable that is one of its tokens substring-replaced (`substOf`); the call never
+    raises KeyError; it ends without error iff every variable is a token of at least one line,
+    and with the ValueError iff some variable is a token of no line.  Only guard: the settings
+    are a dict (distinct keys). -/
+theorem lammps_edit_total (s : Settings) (t : Str) (hnd : (keys s).Nodup) :
+    (writeForRun s t).written = (linesKeep t).map (substOf s) ∧
+    ((writeForRun s t).err = none ↔ ∀ k ∈ keys s, 1 ≤ occ k (linesKeep t)) ∧
+    ((writeForRun s t).err = some .value ↔ ∃ k ∈ keys s, occ k (linesKeep t) = 0) ∧
+    (writeForRun s t).err ≠ some .key := by
+  obtain ⟨a, b, c⟩ := wfrLines_spec' s (linesKeep t) (keys s) [] hnd (fun _ h => h)
+  refine ⟨by simpa [writeForRun] using a, by simpa [writeForRun] using b,
+          by simpa [writeForRun] using c, ?_⟩
+  intro hk
+  cases hcase : (writeForRun s t).err with
+  | none => rw [hcase] at hk; cases hk
+  | some e =>
+    cases e with
+    | value => rw [hcase] at hk; cases hk
+    | key =>
+      -- the error is `none` or `value`: decide by whether a variable is missing
+      by_cases hmiss : ∃ k ∈ keys s, occ k (linesKeep t) = 0
+      · have := (show (writeForRun s t).err = some .value from by simpa [writeForRun] using c.2 hmiss)
+        rw [hcase] at this; cases this
+      · have hall : ∀ k ∈ keys s, 1 ≤ occ k (linesKeep t) := by
+          intro k hk'
+          exact Nat.pos_of_ne_zero (fun h0 => hmiss ⟨k, hk', h0⟩)
+        have := (show (writeForRun s t).err = none from by simpa [writeForRun] using b.2 hall)
+        rw [hcase] at this; cases this
 
-example : (keys [("infretis_x".toList, "5".toList)]).Nodup ∧
-    occ "infretis_x".toList (linesKeep "variable a equal infretis_x\nrun 1\n".toList) = 1 := by decide
-
-/-- **edit_exact (LAMMPS).**  Unless the KeyError is raised, the output has one piece per
-    template line: the line with every variable that is one of its tokens substring-replaced
-    (`substOf`), and a line none of whose tokens is a variable is copied unchanged.  When the
-    KeyError is raised, the output file holds the edited lines before the offending one. -/
-theorem lammps_edit_exact (s : Settings) (t : Str) (hnd : (keys s).Nodup) :
-    ((writeForRun s t).err ≠ some .key →
-        (writeForRun s t).written = (linesKeep t).map (substOf s)) ∧
-    (∃ j, j ≤ (linesKeep t).length ∧
-        (writeForRun s t).written = ((linesKeep t).take j).map (substOf s)) ∧
-    (∀ l, (∀ k ∈ keys s, k ∉ splitWS l) → substOf s l = l) := by
-  obtain ⟨-, -, h3, j, hj, h4⟩ := wfrLines_spec s hnd (linesKeep t) (keys s) [] hnd (fun _ h => h)
-  refine ⟨fun h => by simpa [writeForRun] using h3 h, ⟨j, hj, by simpa [writeForRun] using h4⟩, ?_⟩
-  intro l h
-  exact substLine_untouched _ s l h
+/-- a line none of whose tokens is a variable is copied unchanged -/
+theorem lammps_untouched (s : Settings) (l : Str) (h : ∀ k ∈ keys s, k ∉ splitWS l) :
+    substOf s l = l :=
+  substLine_untouched _ s l h
 
 /-- a single requested variable: every occurrence on a line where it is a token is replaced -/
 theorem lammps_requested_set (k v l : Str) (h : k ∈ splitWS l) :
     substOf [(k, v)] l = replaceAll k v l := by
   simp [substOf, substLine, h]
 
-example : writeForRun [("infretis_x".toList, "5".toList)] "variable a equal infretis_x\nrun 1\n".toList
-    = { written := ["variable a equal 5\n".toList, "run 1\n".toList], err := none } := by decide
+example : (keys [("infretis_x".toList, "5".toList)]).Nodup ∧
+    writeForRun [("infretis_x".toList, "5".toList)] "variable a equal infretis_x\nrun infretis_x\n".toList
+    = { written := ["variable a equal 5\n".toList, "run 5\n".toList], err := none } := by decide
 
-/-- The full statement "if every variable of `s` occurs in the template, the edit succeeds and
-    every line is edited" is FALSE of the code as it is: a variable that is a token of two
-    lines makes `not_found.pop(var)` raise KeyError on the second line, after the first lines
-    have been written.  (signature C19:lammps:variable-on-two-lines) -/
-theorem lammps_edit_total_counterexample :
+/-- RECORD (code before f746fff): a variable that is a token of two lines made
+    `not_found.pop(var)` raise KeyError on the second line, after the first lines had been
+    written (signature C19:lammps:variable-on-two-lines) -/
+theorem lammps_asIs_edit_total_counterexample :
     ∃ (s : Settings) (t : Str), (keys s).Nodup ∧ (∀ k ∈ keys s, occ k (linesKeep t) ≥ 1) ∧
-      writeForRun s t = { written := ["variable a equal 5\n".toList], err := some .key } :=
+      writeForRunAsIs s t = { written := ["variable a equal 5\n".toList], err := some .key } :=
   ⟨[("infretis_x".toList, "5".toList)], "variable a equal infretis_x\nrun infretis_x\n".toList,
    by decide, by decide, by decide⟩
 
-/-- …and it holds under exactly the guard that excludes the defect -/
-theorem lammps_edit_total_partial (s : Settings) (t : Str) (hnd : (keys s).Nodup)
-    (h1 : ∀ k ∈ keys s, occ k (linesKeep t) = 1) :
-    writeForRun s t = { written := (linesKeep t).map (substOf s), err := none } := by
-  have he := ((lammps_outcome s t hnd).1).2 h1
-  have hw := (lammps_edit_exact s t hnd).1 (by rw [he]; simp)
-  cases h : writeForRun s t with
-  | mk w e => rw [h] at he hw; simp only at he hw; rw [he, hw]
+/-- RECORD: the failure modes of the code before f746fff, exactly (success iff every variable
+    on exactly one line; KeyError iff some variable on two or more lines) -/
+theorem lammps_asIs_outcome (s : Settings) (t : Str) (hnd : (keys s).Nodup) :
+    ((writeForRunAsIs s t).err = none ↔ ∀ k ∈ keys s, occ k (linesKeep t) = 1) ∧
+    ((writeForRunAsIs s t).err = some .key ↔ ∃ k ∈ keys s, occ k (linesKeep t) ≥ 2) := by
+  obtain ⟨h1, h2, -, -⟩ := wfrLinesAsIs_spec s hnd (linesKeep t) (keys s) [] hnd (fun _ h => h)
+  have q : ∀ k ∈ keys s, quota (keys s) k = 1 := fun k hk => by simp [quota, hk]
+  constructor
+  · unfold writeForRunAsIs; rw [h1]
+    exact ⟨fun h k hk => by rw [h k hk, q k hk], fun h k hk => by rw [h k hk, q k hk]⟩
+  · unfold writeForRunAsIs; rw [h2]
+    exact ⟨fun ⟨k, hk, h⟩ => ⟨k, hk, by rw [q k hk] at h; omega⟩,
+           fun ⟨k, hk, h⟩ => ⟨k, hk, by rw [q k hk]; omega⟩⟩
 
 /-- **edit_idempotent (LAMMPS), second half: what a further application does.**  On a text in
     which no variable of `s` is a token any more, `write_for_run` copies every byte unchanged
@@ -200,11 +217,9 @@ theorem lammps_apply_without_vars (s : Settings) (t : Str) (hnd : (keys s).Nodup
     rw [List.length_eq_zero_iff, List.filter_eq_nil_iff]
     intro l hl
     simpa using h0 l hl k hk
-  obtain ⟨o1, o2, o3⟩ := lammps_outcome s t hnd
-  have hnk : (writeForRun s t).err ≠ some .key := by
-    intro h; obtain ⟨k, hk, h2⟩ := o2.1 h; have := hocc k hk; omega
+  obtain ⟨o1, o2, o3, -⟩ := lammps_edit_total s t hnd
   constructor
-  · rw [(lammps_edit_exact s t hnd).1 hnk]
+  · rw [o1]
     have : (linesKeep t).map (substOf s) = linesKeep t := by
       conv => rhs; rw [← List.map_id (linesKeep t)]
       apply List.map_congr_left
@@ -212,10 +227,10 @@ theorem lammps_apply_without_vars (s : Settings) (t : Str) (hnd : (keys s).Nodup
       exact substLine_untouched _ s l (h0 l hl)
     rw [this, linesKeep_join]
   · cases s with
-    | nil => simp only [if_true]; exact o1.2 (by simp [keys])
+    | nil => simp only [if_true]; exact o2.2 (by simp [keys])
     | cons kv r =>
       simp only [reduceCtorEq, if_false]
-      refine o3.2 ⟨fun k hk => by rw [hocc k hk]; omega, kv.1, by simp [keys], hocc _ (by simp [keys])⟩
+      exact o3.2 ⟨kv.1, by simp [keys], hocc _ (by simp [keys])⟩
 
 example : writeForRun [("infretis_x".toList, "5".toList)] "variable a equal 5\nrun 1\n".toList
     = { written := ["variable a equal 5\n".toList, "run 1\n".toList], err := some .value } := by decide
@@ -238,18 +253,16 @@ theorem lammps_no_var_remains_counterexample :
   ⟨[("x".toList, "y".toList), ("y".toList, "1".toList)], "x\ny\n".toList, by decide, by decide,
    "y\n".toList, by decide, "y".toList, by decide, by decide⟩
 
-/-- after the edit no variable of `s` is a token of any written line (also of the lines written
-    before a KeyError), for values free of variable names (G1) and templates in which variables
+/-- after the edit no variable of `s` is a token of any written line, for values free of variable names (G1) and templates in which variables
     occur only as whole tokens (G2) -/
 theorem lammps_no_var_remains_partial (s : Settings) (t : Str) (hnd : (keys s).Nodup)
     (G1 : ∀ kv ∈ s, ∀ k ∈ keys s, ¬ k <:+: kv.2)
     (G2 : ∀ l ∈ linesKeep t, ∀ tok ∈ splitWS l, ∀ k ∈ keys s, k <:+: tok → tok = k) :
     ∀ l ∈ (writeForRun s t).written, ∀ k ∈ keys s, k ∉ splitWS l := by
   intro l hl
-  obtain ⟨-, ⟨j, _, hw⟩, -⟩ := lammps_edit_exact s t hnd
-  rw [hw] at hl
+  rw [(lammps_edit_total s t hnd).1] at hl
   obtain ⟨l0, hl0, rfl⟩ := List.mem_map.1 hl
-  exact substOf_no_var s l0 G1 (G2 l0 (List.mem_of_mem_take hl0))
+  exact substOf_no_var s l0 G1 (G2 l0 hl0)
 
 example :
     let s : Settings := [("infretis_a".toList, "1.5".toList), ("infretis_b".toList, "/tmp/x y".toList)]
